@@ -24,7 +24,7 @@ notes = open(os.path.join(src, "notes.md")).read() if os.path.exists(os.path.joi
 fired = mut.run_seed(os.path.join(dst, "patch.diff"), sorted(registry.QUICK))
 meta = {
     "breaks_property": pid,
-    "source": "independent sub-agent given only the property text and a scratch worktree (round %s)" % ("3" if "seed3" in base else "2" if "seed2" in base else "1"),
+    "source": "independent sub-agent given only the property text and a scratch worktree (round %s)" % ((re.search(r"seed(\d)", base).group(1)) if re.search(r"seed(\d)", base) else "1"),
     "summary": notes.strip().split("\n\n")[0][:600],
     "needs_to_manifest": next((p for p in notes.split("\n\n") if re.search(r"manifest|needs|only shows|trigger", p, re.I)), "")[:900],
     "confirmed_by": {"tool": "tools/verify_seed.py in a scratch worktree of /repo HEAD", "steps": res["steps"]},
